@@ -162,33 +162,55 @@ int asm_assemble_string_counting_chunks(assemblyline_t al, char *str,
   return EXIT_SUCCESS;
 }
 
-static void *asm_mmap_file(char *asm_file, size_t *str_len) {
+/**
+ * reads the contents of @param asm_file into a null-terminated heap buffer
+ * (the caller frees it). A mapping of the file cannot be used as a string:
+ * an empty file cannot be mapped at all and a file whose size is a multiple of
+ * the page size has no terminating null byte after its last page.
+ */
+static char *asm_read_file(char *asm_file) {
   // open file for reading
   int fd = open(asm_file, O_RDONLY, S_IRUSR | S_IRUSR);
 
   // NOLINTNEXTLINE
-  FAIL_SYS(fd == -1, "failed to open file\n", MAP_FAILED);
+  FAIL_SYS(fd == -1, "failed to open file\n", NULL);
   struct stat file_stat;
 
-  // NOLINTNEXTLINE
-  FAIL_SYS(fstat(fd, &file_stat), "failed to get file stats\n", MAP_FAILED);
-  // map file contents to a string
-  *str_len = file_stat.st_size;
-  void *str = mmap(NULL, *str_len, PROT_READ, MAP_PRIVATE, fd, 0);
+  if (fstat(fd, &file_stat)) {
+    close(fd);
+    // NOLINTNEXTLINE
+    FAIL_SYS(true, "failed to get file stats\n", NULL);
+  }
+  size_t str_len = file_stat.st_size;
+  char *str = malloc(str_len + 1);
+  if (str == NULL) {
+    close(fd);
+    FAIL_SYS(true, "failed to allocate memory for the file\n", NULL);
+  }
+  // copy the file contents to the string
+  size_t done = 0;
+  while (done < str_len) {
+    ssize_t got = read(fd, str + done, str_len - done);
+    if (got <= 0)
+      break;
+    done += got;
+  }
   close(fd);
+  if (done != str_len) {
+    free(str);
+    FAIL_SYS(true, "failed to read file\n", NULL);
+  }
+  str[str_len] = '\0';
   return str;
 }
 
 int asm_assemble_file_counting_chunks(assemblyline_t al, char *asm_file,
                                       int chunk_size, int *dest) {
 
-  size_t str_len = 0;
-  char *str = asm_mmap_file(asm_file, &str_len);
-  // NOLINTNEXTLINE
-  FAIL_SYS(str == MAP_FAILED, "mmap failed to read file\n", EXIT_FAILURE);
+  char *str = asm_read_file(asm_file);
+  FAIL_IF(str == NULL);
   int exit = asm_assemble_string_counting_chunks(al, str, chunk_size, dest);
-  // free mmap memory used for reading file
-  FAIL_SYS(munmap((void *)str, str_len) == -1, "munmap failed\n", EXIT_FAILURE);
+  free(str);
   return exit;
 }
 
@@ -198,13 +220,10 @@ int assemble_file(assemblyline_t al, char *asm_file) {
 
 int asm_assemble_file(assemblyline_t al, char *asm_file) {
 
-  size_t str_len = 0;
-  const char *str = asm_mmap_file(asm_file, &str_len);
-  // NOLINTNEXTLINE
-  FAIL_SYS(str == MAP_FAILED, "mmap failed to read file\n", EXIT_FAILURE);
+  char *str = asm_read_file(asm_file);
+  FAIL_IF(str == NULL);
   int exit = asm_assemble_str(al, str);
-  // free mmap memory used for reading file
-  FAIL_SYS(munmap((void *)str, str_len) == -1, "munmap failed\n", EXIT_FAILURE);
+  free(str);
   return exit;
 }
 
